@@ -11,7 +11,7 @@ import os, re, concurrent.futures
 FLAG = re.compile(r'<<"FLAG", "([^"]*)", (?:"([^"]*)"|(-?\d+)), (\d+)>>')
 
 
-def judge(ctx, module, cfg, trace, timeout=1500, heap="4g", env=None):
+def judge(ctx, module, cfg, trace, timeout=1500, heap="3g", env=None):
     with open(trace) as f:
         lines = [x for x in f.read().splitlines() if x.strip()]
     e = {"TRACE": trace}
